@@ -97,12 +97,25 @@ def _gen_raw(rng):
         if o[0] == "add_node":
             o[3] = copy.deepcopy(rng.choice(METAS))
         ops.append(o)
-    return {"kind": "raw", "ops": _fix_ops(ops)}
+    ops = _fix_ops(ops)
+    return {"kind": "raw", "ops": ops, "probe": rng.randrange(len(ops) + 1) if rng.random() < 0.5 else None}
+
+
+def _probe(h):
+    """The observers are run once on an intermediate state and their results thrown away: what they report
+    later must depend on the HUGR as it is then, not on what it was at an earlier call."""
+    for f in (lambda: h.to_json(), lambda: h.render_dot().source, lambda: h.to_model(), lambda: list(h.links())):
+        try:
+            f()
+        except Exception:  # noqa: BLE001
+            pass
 
 
 def _raw_hugr(spec):
     r = C04.Run(with_ref=False, nports=NPORTS)
-    for o in spec["ops"]:
+    for i, o in enumerate(spec["ops"]):
+        if spec.get("probe") == i:
+            _probe(r.h)
         t, _ = r.apply(o)
         if t != "ok":
             return None
@@ -116,6 +129,7 @@ def _gen_built(rng):
     return {
         "kind": "built", "seed": rng.randrange(10**6), "size": rng.randint(1, 4),
         "muts": [[rng.choice(["node", "order", "delnode", "insert", "meta", "reqs", "polycall"]), rng.randrange(10**6)] for _ in range(rng.randint(0, 5))],
+        "probe": rng.randrange(6) if rng.random() < 0.5 else None,
     }
 
 
@@ -127,7 +141,9 @@ def _built_hugr(spec):
 
     h = C09.build_module(spec["seed"], spec["size"])
     extra = []
-    for kind, sd in spec["muts"]:
+    for i, (kind, sd) in enumerate(spec["muts"]):
+        if spec.get("probe") == i:
+            _probe(h)
         rng = random.Random(sd)
         nodes = list(h)
         containers = [n for n in nodes if isinstance(h[n].op, (ops.DFG, ops.FuncDefn, ops.Case, ops.TailLoop, ops.DataflowBlock))]
@@ -477,10 +493,22 @@ def stats(spec, obs, counters):
 
 
 def shrink(spec, pred):
+    MARK = ["__probe__"]
+
+    def unmark(key, items):
+        """the probe travels through delta debugging as a marker element of the list"""
+        pr = items.index(MARK) if MARK in items else None
+        return {**spec, key: [x for x in items if x != MARK], "probe": pr}
+
+    def marked(key):
+        items = list(spec[key])
+        if spec.get("probe") is not None and spec["probe"] <= len(items):
+            items.insert(spec["probe"], MARK)
+        return items
+
     if spec["kind"] == "raw":
-        return {"kind": "raw", "ops": ddmin(spec["ops"], lambda o: pred({"kind": "raw", "ops": o}))}
-    s = dict(spec)
-    s["muts"] = ddmin(spec["muts"], lambda m: pred({**spec, "muts": m}))
+        return unmark("ops", ddmin(marked("ops"), lambda o: pred(unmark("ops", o))))
+    s = unmark("muts", ddmin(marked("muts"), lambda m: pred(unmark("muts", m))))
     for size in range(1, spec["size"]):
         if pred({**s, "size": size}):
             s["size"] = size
